@@ -4,11 +4,11 @@ from . import sweeps
 
 def run(ctx):
     rep = ctx.report
-    rep.rule = ("exhaustive single steps: 3 states x inputs -128..255 x elapsed {0,t-1,t,t+1,10t} and idle periods of 60 s, 1 h, 32767..32769 s, 65535..65537 s, 1 day, 1 week, 2^31-1, 2^31, 2^32-1..2^32+1, 2^32+40000 and 2^40 s; state and last "
+    rep.rule = ("exhaustive single steps: 3 states x inputs -128..255 x timer armed at clock reading {100000, 0, 1, 4294960, 4294967, 4294968, 2^40} s x elapsed {0,t-1,t,t+1,10t} and idle periods of 60 s, 1 h, 32767..32769 s, 65535..65537 s, 1 day, 1 week, 2^31-1, 2^31, 2^32-1..2^32+1, 2^32+40000 and 2^40 s; state and last "
                 "timestamp set through the public struct; non-trivial = steps that change state (as the oracle expects)")
     sweeps.run_sweep(ctx, "c14", [], "C14")
     sweeps.run_sweep(ctx, "c14h", [], "C14")        # two-step histories
     rep.exhaustive = True
-    rep.need("steps", rep.counters.get("sweep_c14_cases", 0), 25000)
+    rep.need("steps", rep.counters.get("sweep_c14_cases", 0), 150000)
     from . import c14_tick
     c14_tick.run(ctx)
